@@ -34,6 +34,9 @@ SHAPES = {
     "{k:f}": (lambda f, g: {"k": f}, lambda T: ty.Dict[str, T], "f"),
     "[[f],[g]]": (lambda f, g: [[f], [g]], lambda T: ty.List[ty.List[T]], "fg"),
     "{k:[f,g]}": (lambda f, g: {"k": [f, g]}, lambda T: ty.Dict[str, ty.List[T]], "fg"),
+    # sequences holding files next to members that are not files (left untouched by the collection)
+    "[f,None,g]": (lambda f, g: [f, None, g], lambda T: ty.List[ty.Optional[T]], "fg"),
+    "(7,f)": (lambda f, g: (7, f), lambda T: ty.Tuple[int, T], "f"),
 }
 
 
